@@ -37,21 +37,16 @@ func (i *instanceMethodStrategy) evaluate(m *MethodEvaluator) error {
 				Class: m.ctx.GetClass(),
 			}
 
-		methodClassNodes := base.ClassInheritanceMap[callerNode]
-
-		var isContained bool
-
-		if methodT.DefinedFrame == m.ctx.GetFrame() && methodT.DefinedClass == m.ctx.GetClass() {
-			isContained = true
-		}
-
-		if !isContained {
-			for _, node := range methodClassNodes {
-				if node.Frame == methodT.DefinedFrame && node.Class == methodT.DefinedClass {
-					isContained = true
-				}
+		// callable from the class that defines it and from every descendant of
+		// that class (or of a class that includes the defining module), however
+		// many levels down
+		definedNode :=
+			base.ClassNode{
+				Frame: methodT.DefinedFrame,
+				Class: methodT.DefinedClass,
 			}
-		}
+
+		isContained := base.IsDescendantOf(callerNode, definedNode)
 
 		if !isContained {
 			return fmt.Errorf("%s.%s is protect method", methodT.DefinedClass, methodT.GetMethodName())
